@@ -16,7 +16,7 @@ ASSUMPTIONS = [
     "reference = the same ufunc / operator applied to the underlying arrays (.data) by NumPy itself; results compared bit for bit (NaNs included)",
     "classes with a dtype contract are only combined with ufuncs whose result dtype the class admits (the property's quantifier)",
     "Quantity operands are dimensionless (unscaled or percent): the expectation is what astropy returns for the same ufunc on the raw array "
-    "(a Quantity: same unit, same bits); `quantity == signal` / `!=` are excluded (astropy's Quantity.__eq__ never defers to the other operand)",
+    "(a Quantity: same unit, same bits); `quantity == signal` / `!=` is the open finding K4 (astropy's Quantity.__eq__ never defers to the other operand)",
 ]
 EXHAUSTIVE = {"quick": True, "thorough": True}
 
@@ -461,10 +461,6 @@ def _run_op(case, stt):
                 return
             b = 250.0 * u.percent if opn in ("+", "-", "<", "<=", "==", "!=", ">", ">=") else 2.5 * u.dimensionless_unscaled
             b_raw = b
-            if opn in ("==", "!=") and case["order"] == "sig_second":
-                # astropy's Quantity.__eq__/__ne__ convert the other operand themselves and never defer: the signal is not consulted
-                stt.label("skip_quantity_eq_left")
-                return
             if cls not in ("Signal", "RadioSignal"):
                 stt.label("skip_quantity")
                 return
@@ -706,7 +702,10 @@ SUBS = [
     Sub("operators", op_case(), run_op,
         "the 18 binary and 4 unary Python operators on every class (admitted dtypes) with a signal / signal of another class / array / "
         "broadcast array / Python and NumPy scalars / dimensionless Quantity on either side, NumPy and Dask; operators without a loop must raise "
-        "TypeError; non-trivial = signal as right operand, mixed classes, or a Quantity", quick=3000, thorough=60000, pieces_quick=4),
+        "TypeError; non-trivial = signal as right operand, mixed classes, or a Quantity; cases matching the open finding K4 (a Quantity as LEFT "
+        "operand of == / !=) are excluded by construction and counted", quick=3000, thorough=60000, pieces_quick=4,
+        known=lambda case: "K4" if (case["other"] == "quantity" and case["op"] in ("==", "!=") and case["order"] == "sig_second"
+                                    and case["dtype"] in ("f4", "f8") and case["cls"] in ("Signal", "RadioSignal")) else None),
     Sub("inplace_chains", chain_case(), run_chain,
         "chains of 1..5 in-place operators with scalar/array/signal operands, compared step by step with NumPy's in-place result on the buffer; "
         "the object, its buffer (also seen through an earlier view) and metadata must persist; casts NumPy refuses must raise and change "
